@@ -173,6 +173,12 @@ def judge(ctx, specs, worlds, tag):
             ref_errors.append("edit 1 does not change the report for %s" % (key,))
     ctx.obligation("cold references (%s): cold runs succeed, cold loads are reproducible, the latency edit changes the report" % tag,
                    "harness", not ref_errors, "\n".join(ref_errors[:5]))
+    for key, refs in H.Refs._memo.items():
+        for fname, cid, what in refs["lossy"]:
+            ctx.violation("cached-model-differs-from-parsed-model", "%s (content #%d, world of --arch %s): %s -- compared attribute by attribute "
+                          "(every field of every instruction form, load/store table and header)" % (fname, cid, key[0], what),
+                          {"refs": {"arch": key[0], "kernel": key[1], "variants": list(key[2])}})
+        ctx.count(2 * (len(key[2]) + 2))
     # (search) the property itself on the implementation's outputs
     nviol = 0
     for i, (s, w) in enumerate(zip(specs, worlds)):
@@ -280,6 +286,16 @@ def cleanup(ctx):
 
 def replay(ctx, obj):
     r = obj["replay"]
+    if "refs" in r:
+        try:
+            refs = H.Refs.get(ctx.scratch, r["refs"]["arch"], r["refs"]["kernel"], r["refs"]["variants"])
+        finally:
+            cleanup(ctx)
+        for fname, cid, what in refs["lossy"]:
+            ctx.violation("cached-model-differs-from-parsed-model", "%s (content #%d): %s" % (fname, cid, what), r)
+        if not refs["lossy"]:
+            ctx.log("replay: cached and parsed model data agree attribute by attribute -- not reproduced on this tree")
+        return
     if "spec" not in r:
         return run(ctx)
     spec = r["spec"]
